@@ -398,19 +398,41 @@ def evaluate_likelihood_contract():
         ex, st = Vn.ex, Vn.st
         p = Vo('points')
         ll = ex.deref(st, res[0])
-        bl = ex.deref(st, res[1].val)
+        if isinstance(res[1], MaybeNone):
+            bnone, bl = res[1].isnone, ex.deref(st, res[1].val)
+        elif res[1] is None:
+            bnone, bl = z3.BoolVal(True), None
+        else:
+            bnone, bl = z3.BoolVal(False), ex.deref(st, res[1])
         dt = Vn.raw('self.blobs_dtype')
         dtn = dt.isnone if isinstance(dt, MaybeNone) else z3.BoolVal(dt is None)
-        return [
-            ('post_len', z3.And(ll.n == p.n, bl.n == p.n)),
-            ('post_values', A.forall_idx(p.n, lambda j: z3.And(
-                ll.at(j) == L(p.at(j)), bl.at(j) == Bl(p.at(j))))),
+        out = [
+            ('post_len', ll.n == p.n),
+            ('post_values', A.forall_idx(p.n, lambda j: ll.at(j) ==
+                                         L(p.at(j)))),
+            ('post_blobs_iff_user_returns_blobs', bnone ==
+             z3.Not(M.HAS_BLOBS)),
             ('post_n_like', Vn.int('self.n_like') ==
              Vo.int('self.n_like') + p.n),
             ('post_dtype_known', z3.Implies(M.HAS_BLOBS, z3.Not(dtn))),
+            ('frame_points_unchanged', z3.BoolVal(
+                Vn('points') is Vo('points'))),
         ]
+        if bl is not None:
+            out.append(('post_blob_shape', z3.Implies(z3.Not(bnone),
+                                                      bl.n == p.n)))
+            out.append(('post_blob_values', z3.Implies(
+                z3.Not(bnone), A.forall_idx(
+                    p.n, lambda j: bl.at(j) == Bl(p.at(j))))))
+        return out
+    def raises(Vo, Vn, exc):
+        dt = Vo.raw('self.blobs_dtype')
+        dtn = dt.isnone if isinstance(dt, MaybeNone) else z3.BoolVal(dt is None)
+        return [('only_when_dtype_given_but_no_blobs', z3.And(
+            z3.BoolVal(exc == 'ValueError'), z3.Not(M.HAS_BLOBS),
+            z3.Not(dtn)))]
     return FnContract(SQ + 'evaluate_likelihood', params=['points'], pre=pre,
-                      post=post, result=result,
+                      post=post, result=result, raises=raises,
                       mod_fields=['n_like', 'blobs_dtype'])
 
 
@@ -529,6 +551,22 @@ def add_bound_contract(G):
                                    blt.flat.n == pt.flat.n))))
         f = pt.flat
         s_ = sh.flat
+        # C03: stored values stay the likelihood / blob of their own row
+        out.append(('A1_log_l_is_likelihood_of_point', z3.ForAll(
+            [i, j], z3.Implies(
+                z3.And(i >= 0, i < nb, j >= 0, j < pts.alen(i)),
+                ll.at(i, j) == L(pts.at(i, j))))))
+        if bl is not None:
+            out.append(('A1_blob_is_blob_of_point', z3.Implies(
+                z3.Not(bn), z3.ForAll([i, j], z3.Implies(
+                    z3.And(i >= 0, i < nb, j >= 0, j < pts.alen(i)),
+                    bl.at(i, j) == Bl(pts.at(i, j)))))))
+        out.append(('A2_transfer_log_l_aligned', A.forall_idx(
+            f.n, lambda t: lt.flat.at(t) == L(f.at(t)))))
+        if isinstance(blt, FlatList):
+            out.append(('A2_transfer_blobs_aligned', z3.Implies(
+                z3.Not(bn), A.forall_idx(
+                    f.n, lambda t: blt.flat.at(t) == Bl(f.at(t))))))
         out.append(('transfer_candidates', z3.And(
             z3.ForAll([j], z3.Implies(
                 z3.And(j >= 0, j < f.n),
@@ -756,6 +794,7 @@ def run_contract(G):
         out.append(('suffix_nonempty', z3.ForAll([i], z3.Implies(
             z3.And(i >= lo, i < nb), S(V, 'shell_n').at(i) != 0))))
         out += M.inv_P2(V) + M.inv_rows_aligned(V) + M.inv_bounds(V)
+        out += [x for x in M.inv_A(V) if x[0].startswith('A1')]
         out.append(('shell_n_counts', A.forall_idx(nb, lambda t: z3.And(
             S(V, 'shell_n').at(t) == ll.alen(t),
             S(V, 'shell_n').at(t) <= S(V, 'shell_n_sample').at(t)))))
